@@ -12,6 +12,15 @@
 //   sets                                   -> SET <name> <count> lines
 //   run <set> <scale> <shard> <nshards>    -> enumerate codes with code % nshards == shard
 //   one <set> <scale> <code>               -> single case, verbose (replay)
+//   (append the word "fresh" to run/one to compare the model instantiations with a pristine process, see below)
+//
+// Purity: the routines must be pure functions of their arguments.  After the canonical sequence
+// full(B), vals(B), vals_e(B), full_e(B), full_errbds(B) every routine is called again in other orders, with a
+// different matrix A = reverse(B) in between:  full(A),vals(B),full(B) | vals(A),full(B) | full(B),vals(B),vals(B) |
+// full(A),full(B) | vals_e(A),full_errbds(B) | full_errbds(A),vals_e(B),full_e(B);  every result must be bitwise
+// identical to the canonical one (which is checked against the contract).  With "fresh", the full and the
+// values-only result of the instantiations the models use are additionally compared bitwise with the same call
+// made as the very first library call of a pristine process (forked from a zygote that never called the library).
 // Output:
 //   FAIL <set> <code> <scale> <group> <kind> <value> M <r> <c> <re im ...>   (first 6 per group+kind)
 //   GRP <set> <group> n=<cases> fails=<n> rec=<worst> uni=<worst> val=<worst> cls=<k>:<n>,...
@@ -19,6 +28,9 @@
 //   END <set> <ncodes>
 #include "gm2_linalg.hpp"
 #include "gm2_eigen_utils.hpp"
+#include <unistd.h>
+#include <sys/wait.h>
+#include <set>
 #include <cinttypes>
 #include <complex>
 #include <cstdio>
@@ -75,7 +87,7 @@ static LD unit_err(const Mat& u) {
 
 // ---------------------------------------------------------------- bookkeeping
 struct Grp {
-   long n = 0, nfail = 0;
+   long n = 0, nfail = 0, seq = 0, fresh = 0;
    double rec = 0, uni = 0, val = 0;
    std::map<std::string, long> cls, fk;
 };
@@ -214,6 +226,51 @@ static void chk_vec_bounds(const std::string& g, const char* kind, const Mat& m,
 }
 template <class Arr> static std::vector<double> vec(const Arr& a) { std::vector<double> v; for (int i = 0; i < a.size(); i++) v.push_back(a(i)); return v; }
 
+// ---------------------------------------------------------------- purity helpers
+template <class MT> static MT other_matrix(const MT& m) {   // a different matrix of the same structure (symmetry is preserved)
+   MT a = m.reverse();
+   if (a == m) a(0, 0) += typename MT::Scalar(cur_scale != 0 ? cur_scale : 1.0);
+   return a;
+}
+static double rel_rec(const Mat& m, const std::vector<double>& s, const Mat& U, const Mat* V, Conv conv) {
+   if (!finite_m(U) || (V && !finite_m(*V))) return 1e300;
+   Mat A, B;
+   switch (conv) {
+   case SVD_LAPACK: A = U; B = *V; break;
+   case SVD_HK: A = tr(U); B = *V; break;
+   case SYM_U: A = U; B = tr(U); break;
+   case SYM_HK: A = tr(U); B = U; break;
+   case HERM_Z: A = U; B = adj(U); break;
+   case HERM_SARAH: A = adj(U); B = U; break;
+   }
+   LD nm = fro(m), e = recon_err(m, A, s, B);
+   return nm > 0 ? (double)(e / nm) : (double)e;
+}
+
+// pristine-process reference.  The zygote is forked at program start, before any library call; for every request it
+// forks a child in which the requested call is the first library call ever made, and the raw result bytes come back.
+static int zy_req = -1, zy_rsp = -1;        // parent side
+static bool fresh_enabled = false;
+static bool fresh_child = false; static std::string fresh_group; static int fresh_ov = 0; static int fresh_out = -1;
+static const std::set<std::string> FRESH_GROUPS = {"fs_svd_rc/r/2x2", "fs_svd/c/3x3", "fs_diagonalize_symmetric/r/4x4",
+                                                    "fs_diagonalize_hermitian/r/2x2"};
+static void wr_all(int fd, const void* p, size_t n) { const char* c = (const char*)p; while (n) { ssize_t k = write(fd, c, n); if (k <= 0) _exit(9); c += k; n -= k; } }
+static bool rd_all(int fd, void* p, size_t n) { char* c = (char*)p; while (n) { ssize_t k = read(fd, c, n); if (k <= 0) return false; c += k; n -= k; } return true; }
+struct Bytes { std::vector<unsigned char> b; template <class T> void add(const T& x) { const unsigned char* p = (const unsigned char*)x.data(); b.insert(b.end(), p, p + sizeof(typename T::Scalar) * x.size()); } };
+[[noreturn]] static void fresh_reply(const Bytes& y) { uint32_t n = (uint32_t)y.b.size(); wr_all(fresh_out, &n, 4); wr_all(fresh_out, y.b.data(), n); _exit(0); }
+static bool fresh_fetch(const std::string& g, int ov, std::vector<unsigned char>& out) {
+   char line[256]; int k = std::snprintf(line, sizeof line, "%s %a %ld %s %d\n", cur_set.c_str(), cur_scale, cur_code, g.c_str(), ov);
+   wr_all(zy_req, line, k);
+   uint32_t n = 0; if (!rd_all(zy_rsp, &n, 4) || n > 4096) return false;
+   out.resize(n); return n == 0 || rd_all(zy_rsp, out.data(), n);
+}
+static void fresh_compare(const std::string& g, int ov, const Bytes& mine, const Mat& mm) {
+   std::vector<unsigned char> ref;
+   if (!fresh_fetch(g, ov, ref) || ref.empty()) { std::printf("ERR fresh reference unavailable for %s\n", g.c_str()); std::fflush(stdout); _exit(2); }
+   grps[g].fresh++;
+   if (ref != mine.b) fail(g, ov == 0 ? "impure:differs-from-first-call-in-fresh-process:full" : "impure:differs-from-first-call-in-fresh-process:values-only", 0, mm);
+}
+
 // ---------------------------------------------------------------- layers under test
 #define LAYER2(NAME, CALL, CONV, ORD) \
    struct NAME { template <class R, class S, int M, int N, class... A> static void f(const Eigen::Matrix<S, M, N>& m, A&... a) { CALL; } \
@@ -248,6 +305,13 @@ static void run2(const Eigen::Matrix<S, M, N>& m, Tol tol) {
    typedef Eigen::Array<R, K, 1> Arr; typedef Eigen::Matrix<SU, M, M> MU; typedef Eigen::Matrix<SU, N, N> MV;
    char gb[64]; std::snprintf(gb, sizeof gb, "%s/%s/%dx%d", L::name(), sname<S>::n(), M, N);
    const std::string g = gb;
+   if (fresh_child) {
+      if (g != fresh_group) return;
+      Bytes y; Arr fs; MU fu; MV fv;
+      if (fresh_ov == 0) { L::template f<R, S, M, N>(m, fs, fu, fv); y.add(fs); y.add(fu); y.add(fv); }
+      else { L::template f<R, S, M, N>(m, fs); y.add(fs); }
+      fresh_reply(y);
+   }
    const Mat mm = toMat(m);
    Arr s, s1, s2, s3, s4, ue, ve; MU u, u3, u4; MV v, v3, v4; R e2 = -1, e3 = -1, e4 = -1;
    L::template f<R, S, M, N>(m, s, u, v);
@@ -271,6 +335,37 @@ static void run2(const Eigen::Matrix<S, M, N>& m, Tol tol) {
    int small_pos = L::ord == DESC ? K - 1 : 0;
    chk_vec_bounds(g, "u_errbd", mm, vec(s4), e4, vec(ue), M > N ? small_pos : -1);
    chk_vec_bounds(g, "v_errbd", mm, vec(s4), e4, vec(ve), M < N ? small_pos : -1);
+   // ---- purity: other call orders must give bitwise the canonical results
+   {
+      const Eigen::Matrix<S, M, N> A = other_matrix(m);
+      Arr ta, tb, tue, tve, aue, ave; MU xu, yu; MV xv, yv; R ea = -1, eb = -1;
+      auto full_ok = [&](const char* kind) {
+         grps[g].seq++;
+         if (!(bit_equal(tb, s) && bit_equal(yu, u) && bit_equal(yv, v))) { Mat YU = toMat(yu), YV = toMat(yv); fail(g, kind, rel_rec(mm, vec(tb), YU, &YV, L::conv), mm); }
+      };
+      auto vals_ok = [&](const char* kind) { grps[g].seq++; if (!bit_equal(tb, s1)) fail(g, kind, 0, mm); };
+      L::template f<R, S, M, N>(A, ta, xu, xv); L::template f<R, S, M, N>(m, tb); vals_ok("impure:full(A),vals(B)");
+      L::template f<R, S, M, N>(m, tb, yu, yv); full_ok("impure:full(A),vals(B),full(B)");
+      L::template f<R, S, M, N>(A, ta); L::template f<R, S, M, N>(m, tb, yu, yv); full_ok("impure:vals(A),full(B)");
+      L::template f<R, S, M, N>(m, tb, yu, yv); full_ok("impure:full(B),full(B)");
+      L::template f<R, S, M, N>(m, tb); vals_ok("impure:full(B),vals(B)");
+      L::template f<R, S, M, N>(m, tb); vals_ok("impure:vals(B),vals(B)");
+      L::template f<R, S, M, N>(A, ta, xu, xv); L::template f<R, S, M, N>(m, tb, yu, yv); full_ok("impure:full(A),full(B)");
+      L::template f<R, S, M, N>(A, ta, ea); L::template f<R, S, M, N>(m, tb, yu, yv, eb, tue, tve);
+      grps[g].seq++;
+      if (!(bit_equal(tb, s4) && bit_equal(yu, u4) && bit_equal(yv, v4) && eb == e4 && bit_equal(tue, ue) && bit_equal(tve, ve))) {
+         Mat YU = toMat(yu), YV = toMat(yv); fail(g, "impure:vals_e(A),full_errbds(B)", rel_rec(mm, vec(tb), YU, &YV, L::conv), mm); }
+      L::template f<R, S, M, N>(A, ta, xu, xv, ea, aue, ave); L::template f<R, S, M, N>(m, tb, eb);
+      grps[g].seq++; if (!(bit_equal(tb, s2) && eb == e2)) fail(g, "impure:full_errbds(A),vals_e(B)", 0, mm);
+      L::template f<R, S, M, N>(m, tb, yu, yv, eb);
+      grps[g].seq++;
+      if (!(bit_equal(tb, s3) && bit_equal(yu, u3) && bit_equal(yv, v3) && eb == e3)) {
+         Mat YU = toMat(yu), YV = toMat(yv); fail(g, "impure:full_errbds(A),vals_e(B),full_e(B)", rel_rec(mm, vec(tb), YU, &YV, L::conv), mm); }
+   }
+   if (fresh_enabled && FRESH_GROUPS.count(g)) {
+      Bytes a; a.add(s); a.add(u); a.add(v); fresh_compare(g, 0, a, mm);
+      Bytes b; b.add(s1); fresh_compare(g, 1, b, mm);
+   }
 }
 
 // one-factor routines (Takagi, hermitian)
@@ -280,6 +375,13 @@ static void run1(const Eigen::Matrix<S, N, N>& m, Tol tol) {
    typedef Eigen::Array<R, N, 1> Arr; typedef Eigen::Matrix<SU, N, N> MU;
    char gb[64]; std::snprintf(gb, sizeof gb, "%s/%s/%dx%d", L::name(), sname<S>::n(), N, N);
    const std::string g = gb;
+   if (fresh_child) {
+      if (g != fresh_group) return;
+      Bytes y; Arr fs; MU fu;
+      if (fresh_ov == 0) { L::template f<R, S, N>(m, fs, fu); y.add(fs); y.add(fu); }
+      else { L::template f<R, S, N>(m, fs); y.add(fs); }
+      fresh_reply(y);
+   }
    const Mat mm = toMat(m);
    Arr s, s1, s2, s3, s4, ue; MU u, u3, u4; R e2 = -1, e3 = -1, e4 = -1;
    L::template f<R, S, N>(m, s, u);
@@ -317,6 +419,41 @@ static void run1(const Eigen::Matrix<S, N, N>& m, Tol tol) {
       }
    }
    chk_vec_bounds(g, "u_errbd", mm, sv, e4, vec(ue), -1);
+   // ---- purity: other call orders must give bitwise the canonical results
+   {
+      const Eigen::Matrix<S, N, N> A = other_matrix(m);
+      Arr ta, tb, tue, aue; MU xu, yu; R ea = -1, eb = -1;
+      auto full_ok = [&](const char* kind) {
+         grps[g].seq++;
+         if (!(bit_equal(tb, s) && bit_equal(yu, u))) { Mat YU = toMat(yu); fail(g, kind, rel_rec(mm, vec(tb), YU, nullptr, L::conv), mm); }
+      };
+      auto vals_ok = [&](const char* kind) { grps[g].seq++; if (!bit_equal(tb, s1)) fail(g, kind, 0, mm); };
+      L::template f<R, S, N>(A, ta, xu); L::template f<R, S, N>(m, tb); vals_ok("impure:full(A),vals(B)");
+      L::template f<R, S, N>(m, tb, yu); full_ok("impure:full(A),vals(B),full(B)");
+      // complex symmetric input (matrix square root; not instantiated by the models): only the sequence above
+      const bool heavy = std::is_same<S, cd>::value && (L::conv == SYM_U || L::conv == SYM_HK);
+      if (!heavy) {
+      L::template f<R, S, N>(A, ta); L::template f<R, S, N>(m, tb, yu); full_ok("impure:vals(A),full(B)");
+      L::template f<R, S, N>(m, tb, yu); full_ok("impure:full(B),full(B)");
+      L::template f<R, S, N>(m, tb); vals_ok("impure:full(B),vals(B)");
+      L::template f<R, S, N>(m, tb); vals_ok("impure:vals(B),vals(B)");
+      L::template f<R, S, N>(A, ta, xu); L::template f<R, S, N>(m, tb, yu); full_ok("impure:full(A),full(B)");
+      L::template f<R, S, N>(A, ta, ea); L::template f<R, S, N>(m, tb, yu, eb, tue);
+      grps[g].seq++;
+      if (!(bit_equal(tb, s4) && bit_equal(yu, u4) && eb == e4 && bit_equal(tue, ue))) {
+         Mat YU = toMat(yu); fail(g, "impure:vals_e(A),full_errbds(B)", rel_rec(mm, vec(tb), YU, nullptr, L::conv), mm); }
+      L::template f<R, S, N>(A, ta, xu, ea, aue); L::template f<R, S, N>(m, tb, eb);
+      grps[g].seq++; if (!(bit_equal(tb, s2) && eb == e2)) fail(g, "impure:full_errbds(A),vals_e(B)", 0, mm);
+      L::template f<R, S, N>(m, tb, yu, eb);
+      grps[g].seq++;
+      if (!(bit_equal(tb, s3) && bit_equal(yu, u3) && eb == e3)) {
+         Mat YU = toMat(yu); fail(g, "impure:full_errbds(A),vals_e(B),full_e(B)", rel_rec(mm, vec(tb), YU, nullptr, L::conv), mm); }
+      }
+   }
+   if (fresh_enabled && FRESH_GROUPS.count(g)) {
+      Bytes a; a.add(s); a.add(u); fresh_compare(g, 0, a, mm);
+      Bytes b; b.add(s1); fresh_compare(g, 1, b, mm);
+   }
 }
 
 // ---------------------------------------------------------------- families
@@ -360,6 +497,7 @@ template <int N> static void fam_herm_cplx(const Eigen::Matrix<cd, N, N>& m) {
 
 // gm2_eigen_utils.hpp: the helpers the models apply to decomposition results
 static void chk_utils_2x2(const Eigen::Matrix2d& m) {
+   if (fresh_child) return;
    const std::string g = "eigen_utils/r/2x2";
    Grp& G = grps[g]; G.n++;
    Mat mm = toMat(m);
@@ -582,7 +720,7 @@ static std::vector<Set> sets = {
 static void report(const std::string& set) {
    for (auto& e : grps) {
       const Grp& G = e.second;
-      std::printf("GRP %s %s n=%ld fails=%ld rec=%.3e uni=%.3e val=%.3e cls=", set.c_str(), e.first.c_str(), G.n, G.nfail, G.rec, G.uni, G.val);
+      std::printf("GRP %s %s n=%ld fails=%ld rec=%.3e uni=%.3e val=%.3e seq=%ld fresh=%ld cls=", set.c_str(), e.first.c_str(), G.n, G.nfail, G.rec, G.uni, G.val, G.seq, G.fresh);
       bool first = true;
       for (auto& c : G.cls) { std::printf("%s%s:%ld", first ? "" : ",", c.first.c_str(), c.second); first = false; }
       if (first) std::printf("-");
@@ -592,23 +730,57 @@ static void report(const std::string& set) {
    grps.clear();
 }
 
+static const Set* find_set(const std::string& name) { for (auto& s : sets) if (name == s.name) return &s; return nullptr; }
+
+// zygote: never calls the library itself
+static void zygote_loop(int req_r, int rsp_w) {
+   FILE* in = fdopen(req_r, "r");
+   char line[512];
+   while (in && std::fgets(line, sizeof line, in)) {
+      char set[64], grp[128]; double sc; long code; int ov;
+      if (std::sscanf(line, "%63s %lf %ld %127s %d", set, &sc, &code, grp, &ov) != 5) { uint32_t z = 0; wr_all(rsp_w, &z, 4); continue; }
+      pid_t pid = fork();
+      if (pid == 0) {
+         fresh_child = true; fresh_group = grp; fresh_ov = ov; fresh_out = rsp_w;
+         cur_set = set; cur_scale = sc; cur_code = code;
+         const Set* S = find_set(set);
+         if (S) S->run(code, sc);
+         uint32_t z = 0; wr_all(rsp_w, &z, 4); _exit(0);     // group not reached
+      }
+      if (pid < 0) { uint32_t z = 0; wr_all(rsp_w, &z, 4); continue; }
+      int st; waitpid(pid, &st, 0);
+   }
+   _exit(0);
+}
+static void start_zygote() {
+   int a[2], b[2];
+   if (pipe(a) != 0 || pipe(b) != 0) { std::printf("ERR pipe\n"); std::exit(2); }
+   pid_t pid = fork();
+   if (pid < 0) { std::printf("ERR fork\n"); std::exit(2); }
+   if (pid == 0) { close(a[1]); close(b[0]); close(0); zygote_loop(a[0], b[1]); }
+   close(a[0]); close(b[1]); zy_req = a[1]; zy_rsp = b[0];
+}
+
 int main() {
+   start_zygote();     // before anything else: the zygote's memory image has never seen a library call
    std::string cmd;
    while (std::cin >> cmd) {
       if (cmd == "sets") {
          for (auto& s : sets) std::printf("SET %s %ld\n", s.name, s.count);
       } else if (cmd == "run" || cmd == "one") {
          std::string name, sc; std::cin >> name >> sc;
-         const Set* S = nullptr; for (auto& s : sets) if (name == s.name) S = &s;
+         const Set* S = find_set(name);
          if (!S) { std::printf("ERR unknown set %s\n", name.c_str()); return 2; }
          cur_set = name; cur_scale = std::strtod(sc.c_str(), nullptr);
          long n = 0;
          if (cmd == "run") {
-            long sh, nsh; std::cin >> sh >> nsh;
+            long sh, nsh; std::string fr; std::cin >> sh >> nsh >> fr;
+            fresh_enabled = fr == "fresh";
             verbose = false;
             for (long c = sh; c < S->count; c += nsh) { cur_code = c; S->run(c, cur_scale); n++; }
          } else {
-            long c; std::cin >> c; verbose = true; cur_code = c; S->run(c, cur_scale); n = 1;
+            long c; std::string fr; std::cin >> c >> fr; fresh_enabled = fr == "fresh";
+            verbose = true; cur_code = c; S->run(c, cur_scale); n = 1;
          }
          report(name);
          std::printf("END %s %ld\n", name.c_str(), n);
